@@ -1,0 +1,48 @@
+//go:build verif
+
+package rawconfigtrafficcontroller
+
+// Contracts for property C20: the event loop that drives the traffic controller. Comment-only file.
+
+/*@
+// every entry of a watcher event is dispatched exactly once, to the operation of its kind, in the default
+// namespace: deleted names to DeletePipeline / DeleteTrafficGate, created objects to Create..., changed ones to Update...
+ghost var nDelP int
+ghost var nDelG int
+ghost var nNewP int
+ghost var nNewG int
+ghost var nUpdP int
+ghost var nUpdG int
+ghost var gOtherNS bool
+pred isGateKind(k string) := k != pipeline.Kind && (k in supervisor.TrafficObjectKinds)
+pred entOK(e *supervisor.ObjectEntity) := e != nil && e.spec != nil && e.spec.meta != nil && e.instance != nil
+pred tcOK(tc *trafficcontroller.TrafficController) := tc != nil && trafficcontroller.spacesOK(tc) && trafficcontroller.gatesOK(tc)
+
+func (rctc *RawConfigTrafficController) handleEvent(event *supervisor.ObjectEntityWatcherEvent)
+  flag allocates
+  flag frame=unchecked
+  // creating in the (non-empty) default namespace cannot fail: the error branch after the two create calls is dead
+  flag dead=ObjectEntity.Spec#3,Spec.Name#1
+  requires rctc != nil && tcOK(rctc.tc) && event != nil
+  requires every-entry-is-a-traffic-object: (forall n string :: (n in event.Delete) ==> entOK(event.Delete[n]) && (event.Delete[n].spec.meta.Kind == pipeline.Kind || isGateKind(event.Delete[n].spec.meta.Kind))) && (forall n string :: (n in event.Create) ==> entOK(event.Create[n]) && (event.Create[n].spec.meta.Kind == pipeline.Kind || isGateKind(event.Create[n].spec.meta.Kind))) && (forall n string :: (n in event.Update) ==> entOK(event.Update[n]) && (instKind(ifaceVal(event.Update[n].instance)) == pipeline.Kind || isGateKind(instKind(ifaceVal(event.Update[n].instance)))))
+  ensures every-deleted-name-is-dispatched-once: (nDelP - old(nDelP)) + (nDelG - old(nDelG)) == len(event.Delete)
+  ensures every-created-object-is-dispatched-once: (nNewP - old(nNewP)) + (nNewG - old(nNewG)) == len(event.Create)
+  ensures every-changed-object-is-dispatched-once: (nUpdP - old(nUpdP)) + (nUpdG - old(nUpdG)) == len(event.Update)
+  ensures always-in-the-default-namespace: !gOtherNS
+  ghost at entry: gOtherNS := false
+  ghost at call DeletePipeline: nDelP := nDelP + 1
+  ghost at call DeleteTrafficGate: nDelG := nDelG + 1
+  ghost at call CreatePipeline: nNewP := nNewP + 1
+  ghost at call CreateTrafficGate: nNewG := nNewG + 1
+  ghost at call UpdatePipeline: nUpdP := nUpdP + 1
+  ghost at call UpdateTrafficGate: nUpdG := nUpdG + 1
+  ghost at call DeletePipeline: gOtherNS := gOtherNS || namespace != DefaultNamespace
+  ghost at call DeleteTrafficGate: gOtherNS := gOtherNS || namespace != DefaultNamespace
+  ghost at call CreatePipeline: gOtherNS := gOtherNS || namespace != DefaultNamespace
+  ghost at call CreateTrafficGate: gOtherNS := gOtherNS || namespace != DefaultNamespace
+  ghost at call UpdatePipeline: gOtherNS := gOtherNS || namespace != DefaultNamespace
+  ghost at call UpdateTrafficGate: gOtherNS := gOtherNS || namespace != DefaultNamespace
+  invariant[1] tcOK(rctc.tc) && !gOtherNS && (nDelP - old(nDelP)) + (nDelG - old(nDelG)) == idx$1 && nNewP == old(nNewP) && nNewG == old(nNewG) && nUpdP == old(nUpdP) && nUpdG == old(nUpdG) && unchanged$1
+  invariant[2] tcOK(rctc.tc) && !gOtherNS && (nDelP - old(nDelP)) + (nDelG - old(nDelG)) == len(event.Delete) && (nNewP - old(nNewP)) + (nNewG - old(nNewG)) == idx$2 && nUpdP == old(nUpdP) && nUpdG == old(nUpdG) && unchanged$2
+  invariant[3] tcOK(rctc.tc) && !gOtherNS && (nDelP - old(nDelP)) + (nDelG - old(nDelG)) == len(event.Delete) && (nNewP - old(nNewP)) + (nNewG - old(nNewG)) == len(event.Create) && (nUpdP - old(nUpdP)) + (nUpdG - old(nUpdG)) == idx$3 && unchanged$3
+@*/
